@@ -196,6 +196,28 @@ def check_config(cls, p, h, ys, term=None):
         if (z1 < z0 - tol) if inc else (z1 > z0 + tol):
             return False, (f"{cls}{tuple(p)} height {h}: tsukamoto is not {'increasing' if inc else 'decreasing'} in y: "
                            f"z({y0!r}) = {z0!r}, z({y1!r}) = {z1!r}"), y1
+    # an object that has already answered: built with another height (and, where the class allows it, with shifted
+    # parameters), asked once, then re-assigned by attribute to (p, h): it must answer like a freshly built term
+    import inspect
+    names = [n for n in inspect.signature(getattr(fl, cls).__init__).parameters if n not in ("self", "name", "height")]
+    used = T.make(cls, p, 1.0 if h != 1.0 else 0.5)
+    tsu(used, 0.25 * min(h, 0.5))
+    used.height = h
+    for y in inside[:6]:
+        u, w = tsu(term, y), tsu(used, y)
+        if not ((u != u and w != w) or u == w or abs(u - w) <= 1e-12 * (1 + abs(u))):
+            return False, (f"{cls}{tuple(p)}: an object built with height {1.0 if h != 1.0 else 0.5}, asked once and then set to height "
+                           f"{h} by attribute gives tsukamoto({y!r}) = {w!r}, a fresh term gives {u!r}"), y
+    if len(names) == len(p) and all(math.isfinite(v) for v in p):
+        shifted = T.make(cls, [v + 0.5 for v in p] if cls != "Sigmoid" else [p[0] + 0.5, p[1]], h)
+        tsu(shifted, 0.25 * h)
+        for n_, v in zip(names, p):
+            setattr(shifted, n_, v)
+        for y in inside[:6]:
+            u, w = tsu(term, y), tsu(shifted, y)
+            if not ((u != u and w != w) or u == w or abs(u - w) <= 1e-12 * (1 + abs(u))):
+                return False, (f"{cls}{tuple(p)} height {h}: an object built with other parameters, asked once and then set to these "
+                               f"parameters by attribute gives tsukamoto({y!r}) = {w!r}, a fresh term gives {u!r}"), y
     ys = list(ys)
     if len(ys) % 2:
         ys.append(ys[0])
